@@ -230,10 +230,6 @@ func c08catalog(c *Ctx, schema string) map[string]map[string]string {
 	return m
 }
 
-func dateTimeLike(s string) bool {
-	return len(s) >= 19 && s[4] == '-' && s[7] == '-' && (s[10] == 'T' || s[10] == 't') && s[13] == ':'
-}
-
 func uuidLike(s string) bool {
 	if len(s) != 36 {
 		return false
@@ -356,9 +352,8 @@ func applyStoreFault(root *JV, op Op) ([]byte, bool) {
 		v.S = v.S[:len(v.S)-int(op.I)]
 	case "caseflip":
 		// flip the case of one letter of a string VALUE (member names are never touched)
-		if v.K != 's' || uuidLike(v.S) || dateTimeLike(v.S) {
-			// identifiers are case-insensitive by definition (RFC 4122), and so are the
-			// "T"/"Z" separators of a date-time (RFC 3339 §5.6): not content changes
+		if v.K != 's' || uuidLike(v.S) {
+			// identifiers are case-insensitive by definition (RFC 4122): not a content change
 			return nil, false
 		}
 		var idx []int
